@@ -8,7 +8,7 @@ VERIFY_MSGS = (
     "invariant not satisfied", "possible arithmetic", "possible division by zero",
     "decreases not satisfied", "loop invariant", "possible bit shift", "unreachable",
     "cannot show invariant", "panic", "constructed value may fail to meet its declared type invariant",
-    "possible truncation", "index out of bounds", "could not prove termination",
+    "possible truncation", "index out of bounds", "could not prove termination", "precondition not met",
 )
 UNDECIDED_MSGS = ("Resource limit (rlimit) exceeded", "rlimit", "timed out", "while proving termination")
 
